@@ -1,4 +1,5 @@
 mod api;
+mod backend;
 mod db;
 mod errors;
 mod fmtrun;
@@ -37,6 +38,8 @@ fn main() {
         "number" => literal::main_numbers(&args[1..]),
         "ident" => literal::main_idents(&args[1..]),
         "lexlist" => lexrun::main_list(&args[1..]),
+        "backend-raw" => backend::main_raw(&args[1..]),
+        "backend" => backend::main(&args[1..]),
         "render-ndjson" => {
             // args: <dbset.json> <programs.ndjson> <out.ndjson of {"id","src"}>
             use std::io::Write;
